@@ -105,14 +105,20 @@ def run_vote(case, deadline=10.0, seed=None):
         sc = None
         if case["method"] != "score" and hasattr(rule, "score"):
             sc = rule.score(prof)
+        inner = None
+        if hasattr(rule, "voting_rule") and case["method"] == "scf":      # the deterministic rule a randomized rule exposes (documented access path): same index convention
+            st = np.random.get_state(); np.random.seed(12345); keep = len(rec.calls)
+            try: inner = tolist(rule.voting_rule.scf(prof))
+            finally:
+                np.random.set_state(st); del rec.calls[keep:]      # draws of this extra call do not belong to the observed call
         same = A.shape == A0.shape and A.dtype == A0.dtype and A.tobytes() == A0.tobytes()
-        return out, sc, same
+        return out, sc, same, inner
     with ChoiceRecorder() as rec:
         r = supervised(go, deadline)
     if r[0] != "ok":
         return dict(status=r[0], err=(r[1] if len(r) > 1 else ""), msg=(r[2] if len(r) > 2 else ""), choices=rec.calls)
-    out, sc, same = r[1]
-    return dict(status="ok", out=tolist(out), score=(None if sc is None else tolist(sc)), choices=rec.calls, mutated=not same)
+    out, sc, same, inner = r[1]
+    return dict(status="ok", out=tolist(out), score=(None if sc is None else tolist(sc)), choices=rec.calls, mutated=not same, inner=inner)
 
 def cP(P):
     return cl([cl([cz(x) for x in row]) for row in P])
